@@ -480,6 +480,28 @@ pub fn reference(ctx: &Ctx, wd: &WorkerDir, job: &Job, text: &str) -> Arc<ProcOu
     out
 }
 
+/// Text of a process's stderr for violation messages: colours removed and the OS thread id that
+/// a panicking Rust program prints (`thread 'main' (12345) panicked`) blanked, so that messages —
+/// and with them run digests and known-finding signatures — are reproducible.
+pub fn stderr_excerpt(b: &[u8], max: usize) -> String {
+    let t = String::from_utf8_lossy(&strip_ansi(b)).into_owned();
+    let mut out = String::with_capacity(t.len());
+    let mut rest = t.as_str();
+    while let Some(p) = rest.find("' (") {
+        let after = &rest[p + 3..];
+        let digits = after.chars().take_while(|c| c.is_ascii_digit()).count();
+        if digits > 0 && after[digits..].starts_with(") panicked") {
+            out.push_str(&rest[..p + 1]);
+            rest = &after[digits + 1..];
+        } else {
+            out.push_str(&rest[..p + 3]);
+            rest = after;
+        }
+    }
+    out.push_str(rest);
+    out.chars().take(max).collect()
+}
+
 pub fn strip_ansi(b: &[u8]) -> Vec<u8> {
     let mut out = Vec::with_capacity(b.len());
     let mut i = 0;
@@ -861,7 +883,7 @@ pub fn execute(ctx: &Ctx, wd: &WorkerDir, job: &Job, p: &Perturb, st: &mut RunSt
                 if got.status != 0 {
                     return Some(Violation {
                         invariant: "I1",
-                        detail: format!("accepted by the reference run but exit status {} here; stderr: {}", got.status, String::from_utf8_lossy(&strip_ansi(&got.stderr)).chars().take(300).collect::<String>()),
+                        detail: format!("accepted by the reference run but exit status {} here; stderr: {}", got.status, stderr_excerpt(&got.stderr, 300)),
                     });
                 }
                 if let Some(at) = first_diff(&r.stdout, &got.stdout) {
@@ -957,7 +979,7 @@ pub fn check_exclusion(ctx: &Ctx, wd: &WorkerDir, job: &Job, st: &mut RunStats) 
                 "excluding the leaf declarations {:?} turns an accepted compilation into exit {}: {}",
                 e,
                 eout.status,
-                String::from_utf8_lossy(&strip_ansi(&eout.stderr)).chars().take(300).collect::<String>()
+                stderr_excerpt(&eout.stderr, 300)
             ),
         });
     }
